@@ -36,7 +36,6 @@ Proof. vm_compute. reflexivity. Qed.
 Lemma dy_eta (a b : dy) : dm a = dm b -> de a = de b -> a = b.
 Proof. destruct a, b. cbn. intros -> ->. reflexivity. Qed.
 
-Definition tabs_of (d : desc) : list tab := [d_tab_base d; d_tab_alt1 d; d_tab_alt2 d].
 
 Lemma frac_in_all d t frac : In d mech_descs -> In t (tabs_of d) -> In frac (t_chan_azis t) ->
   exists y, In y all_fracs /\ frac = y.
@@ -79,6 +78,12 @@ Qed.
 Definition step_ok (d : desc) : bool :=
   forallb (fun rps => let s := (dy_round_half_away (dy_mul_r 53 (dy_of_Z (36000 * rps)) (d_block_duration d))) mod 65536 in
                       (0 <=? s) && ((if d_is16 d then 2 * s else s) <=? AZ_DIFF_MAX)) (zrange 1 1093).
+(* ... and so is it for every block period the decoder can hold (Bpearl v4) *)
+Definition step_ok_bd (d : desc) : bool :=
+  forallb (fun bd => forallb (fun rps => let s := (dy_round_half_away (dy_mul_r 53 (dy_of_Z (36000 * rps)) bd)) mod 65536 in
+                      (0 <=? s) && ((if d_is16 d then 2 * s else s) <=? AZ_DIFF_MAX)) (zrange 1 1093)) (bds_of d).
+Lemma nominal_steps_in_range_bd : forallb step_ok_bd mech_descs = true.
+Proof. vm_compute. reflexivity. Qed.
 Lemma nominal_steps_in_range : forallb step_ok mech_descs = true.
 Proof. vm_compute. reflexivity. Qed.
 
@@ -90,10 +95,3 @@ Proof.
 Qed.
 
 (* variant tables: which firing/lens table is in force *)
-Lemma cur_tab_in d s : In (cur_tab d s) (tabs_of d).
-Proof.
-  unfold cur_tab, tabs_of. destruct (d_variant d); cbn; auto.
-  - destruct (s_echo_dual s); auto.
-  - destruct (s_variant s =? 1); auto.
-  - destruct (s_first_pkt s); auto. destruct (s_variant s =? 3); auto.
-Qed.
